@@ -458,7 +458,8 @@ func init() {
 			o.Impl, o.Nontrivial = L(B(b), U(uint64(obu.EncodeLEB128(uint(v))))), true
 			back, n, err := obu.ReadLeb128(append(append([]byte{}, b...), 0xAA))
 			back2, _, _ := pkgobu.ReadLeb128(b)
-			if v < 1<<56 && (err != nil || uint64(back) != v || int(n) != len(b) || uint64(back2) != v) {
+			// every uint: the 9- and 10-byte encodings of values from 2^56 on included (D19 is repaired)
+			if err != nil || uint64(back) != v || int(n) != len(b) || uint64(back2) != v {
 				o.Fail = "ReadLeb128(WriteToLeb128(v)) differs"
 			}
 			if !bytes.Equal(b, leb(v)) {
@@ -476,11 +477,32 @@ func init() {
 			}
 			return o
 		case 1305:
-			v, n, err := obu.ReadLeb128(tokBytes(toks[0]))
+			in := tokBytes(toks[0])
+			v, n, err := obu.ReadLeb128(in)
 			if err != nil {
 				o.Impl = ErrV(av1ErrClass(err))
 			} else {
 				o.Impl, o.Nontrivial = OkV(L(U(uint64(v)), U(uint64(n)))), true
+			}
+			// reference reading of LEB128 (AV1 4.10.5 without its 8-byte limit): 7 bits per byte, least
+			// significant group first, up to the first byte without the continuation bit; groups beyond
+			// 64 bits carry nothing
+			var want uint64
+			end := -1
+			for i, x := range in {
+				if 7*i < 64 {
+					want |= uint64(x&0x7f) << uint(7*i)
+				}
+				if x&0x80 == 0 {
+					end = i + 1
+					break
+				}
+			}
+			switch {
+			case end < 0 && err == nil:
+				o.Fail = "an encoding without a final byte was accepted"
+			case end >= 0 && (err != nil || uint64(v) != want || int(n) != end):
+				o.Fail = fmt.Sprintf("ReadLeb128(%x) = %d, %d bytes, err %v; the encoding says %d in %d bytes", in, v, n, err, want, end)
 			}
 			return o
 		case 1306:
@@ -593,6 +615,14 @@ func init() {
 						b := leb(c.U64() >> uint(c.Intn(64)))
 						if c.Intn(3) == 0 {
 							b = b[:c.Intn(len(b)+1)]
+						}
+						if c.Intn(6) == 0 {
+							// a long, non-canonical encoding: 8-14 continuation bytes in front of a final one
+							b = nil
+							for k, kn := 0, 8+c.Intn(7); k < kn; k++ {
+								b = append(b, 0x80|byte(c.Intn(128)))
+							}
+							b = append(b, byte(c.Intn(128)))
 						}
 						emit(1305, TBytes(append(b, c.Bytes(c.Intn(3))...)))
 					}
